@@ -103,6 +103,12 @@ Proof.
   unfold w_ptr, ptr_record_length. destruct d; [|lia]. pose proof (zlen_nonneg nm). lia.
 Qed.
 
+Lemma totals_nonneg w : (forall d nm v, 0 <= w d nm v) -> forall l, 0 <= totals w l.
+Proof.
+  intros Hw l. induction l as [|c r IH]; [unfold totals; cbn; lia|].
+  rewrite totals_cons. pose proof (total_nonneg w Hw c). lia.
+Qed.
+
 Lemma file_name_nonempty nm : check_iso9660_filename nm 3 = Accept -> nm <> [].
 Proof. intros H E. subst nm. vm_compute in H. discriminate. Qed.
 
@@ -202,11 +208,9 @@ Proof.
   pose proof (total_replace w_ptr q (root s) (Dir dn dl (remove_at k kids)) _ Hsub) as E.
   pose proof (total_nonneg w_ptr w_ptr_nonneg (replace q (Dir dn dl (remove_at k kids)) (root s))) as N.
   rewrite !total_dir, (totals_remove_at _ kids k _ Hk), total_dir in E.
-  pose proof (total_nonneg w_ptr w_ptr_nonneg) as N'.
-  assert (0 <= totals w_ptr ckids).
-  { specialize (N' (Dir [] 0 ckids)). rewrite total_dir in N'. cbn [w_ptr] in N'.
-    unfold ptr_record_length in N'. cbn in N'. lia. }
-  cbn [w_ptr] in E. lia.
+  pose proof (totals_nonneg w_ptr w_ptr_nonneg ckids) as N'.
+  pose proof (w_ptr_nonneg true cn cdl) as N''.
+  cbn [w_ptr] in *. lia.
 Qed.
 
 Lemma step_rm_dir_inv s p : Inv s -> Inv (fst (step_rm_dir s p)).
@@ -282,7 +286,7 @@ Proof.
   { cbn [st_of recs]. unfold sized, C. constructor; [lia|]. constructor; [lia|].
     apply Forall_map. eapply Forall_impl; [|exact Hn]. intros nm [H _]. lia. }
   pose proof (num_extents_lower C _ ltac:(unfold C; lia) HS) as (H1 & _).
-  cbn [dlen] in Hle. unfold C in *. lia.
+  cbn [st_of dlen recs] in *. unfold C in *. lia.
 Qed.
 
 Lemma obj_size_nonneg n : all_ok n -> 0 <= obj_size n.
@@ -342,6 +346,75 @@ Proof.
   apply R. reflexivity.
 Qed.
 
+(* ---- 7. non-vacuity ------------------------------------------------------------------------ *)
+
+(* the fresh image, as PyCdlib.new(interchange_level=3) reports it: space_size 24, path_tbl_size
+   10, path_table_num_extents 2, root data_length 2048, no file; objects: system area, PVD,
+   terminator, version block, L table, M table, root directory *)
+Example init_values :
+  probe init = [24; 10; 2; 2048; 0] /\ layout_end init = 24 /\
+  objects init = [16; 1; 1; 1; 2; 2; 1] /\
+  layout init = [(0, 16); (16, 1); (17, 1); (18, 1); (19, 2); (21, 2); (23, 1)].
+Proof. vm_compute. repeat split; reflexivity. Qed.
+
+(* 37 operations (8 of them refused): twelve files with 202-byte names (dr_len 236) of lengths
+   0, 1000, ..., 11000 make the root directory grow to two blocks at the ninth; a sub-tree /D/E
+   with one file; then everything is removed again and the root shrinks back to one block.
+   Library-checked copies of this and other histories are in Proofs/AccountTraces.v. *)
+Definition ex_name (i : nat) : ident := repeat 78 199 ++ [65 + Z.of_nat i; 59; 49].
+Definition ex_D : ident := [68].
+Definition ex_E : ident := [69].
+Definition ex_X : ident := [88; 46; 84; 88; 84; 59; 49].            (* X.TXT;1 *)
+Definition ex_ops : list op :=
+  map (fun i => AddFile [] (ex_name i) (Z.of_nat i * 1000)) (seq 0 12)
+  ++ [AddFile [] (ex_name 3) 9;                                     (* duplicate *)
+      AddDir [] ex_D; AddDir [ex_D] ex_E;
+      AddDir [ex_D; [90]] ex_E;                                     (* no such parent *)
+      AddFile [ex_D; ex_E] ex_X 7;
+      AddFile [ex_D; ex_E] [120] 7;                                 (* lower case *)
+      RmDir [ex_D];                                                 (* not empty *)
+      RmFile [] ex_D;                                               (* a directory *)
+      RmDir []]                                                     (* the root *)
+  ++ map (fun i => RmFile [] (ex_name i)) [0; 5; 11; 2; 8; 3; 7]%nat
+  ++ [RmFile [] (ex_name 3);                                        (* already removed *)
+      RmFile [ex_D; ex_E] ex_X; RmDir [ex_D; ex_E]; RmDir [ex_D]]
+  ++ map (fun i => RmFile [] (ex_name i)) [1; 4; 6; 9; 10]%nat.
+
+Example ex_history :
+  length ex_ops = 37%nat /\
+  (* (space, layout_end) after every operation *)
+  run_ends ex_ops =
+    [(24, 24); (25, 25); (26, 26); (28, 28); (30, 30); (33, 33); (36, 36); (40, 40); (45, 45);
+     (50, 50); (55, 55); (61, 61); (61, 61); (62, 62); (63, 63); (63, 63); (64, 64); (64, 64);
+     (64, 64); (64, 64); (64, 64); (64, 64); (61, 61); (55, 55); (53, 53); (49, 49); (47, 47);
+     (43, 43); (43, 43); (42, 42); (41, 41); (40, 40); (39, 39); (37, 37); (34, 34); (29, 29);
+     (24, 24)] /\
+  run_flags ex_ops =
+    [true; true; true; true; true; true; true; true; true; true; true; true; false; true; true;
+     false; true; false; false; false; false; true; true; true; true; true; true; true; false;
+     true; true; true; true; true; true; true; true] /\
+  (* sum of the directory data_lengths: the root is 4096 from the 9th file until 5 are left *)
+  map (fun p => nth 3 p 0) (run_probe ex_ops) =
+    [2048; 2048; 2048; 2048; 2048; 2048; 2048; 2048; 4096; 4096; 4096; 4096; 4096; 6144; 8192;
+     8192; 8192; 8192; 8192; 8192; 8192; 8192; 8192; 8192; 6144; 6144; 6144; 6144; 6144; 6144;
+     4096; 2048; 2048; 2048; 2048; 2048; 2048] /\
+  probe (run init ex_ops) = [24; 10; 2; 2048; 0] /\
+  (* the state after the 17th operation: root (2 blocks), D, E, eleven non-empty files, X.TXT *)
+  probe (run init (firstn 17 ex_ops)) = [64; 30; 2; 8192; 13] /\
+  layout (run init (firstn 17 ex_ops)) =
+    [(0, 16); (16, 1); (17, 1); (18, 1); (19, 2); (21, 2); (23, 2); (25, 1); (26, 1); (27, 1);
+     (28, 1); (29, 2); (31, 2); (33, 3); (36, 3); (39, 4); (43, 4); (47, 5); (52, 5); (57, 6);
+     (63, 1)].
+Proof. vm_compute. repeat split; reflexivity. Qed.
+
+(* the theorems apply to it (and say the same thing) *)
+Example ex_history_inv :
+  Inv (run init ex_ops) /\ space (run init (firstn 17 ex_ops)) = 64 /\
+  layout_end (run init (firstn 17 ex_ops)) = 64.
+Proof.
+  split; [apply run_inv|]. rewrite <- C04_declared_size_is_exact. split; vm_compute; reflexivity.
+Qed.
+
 Print Assumptions init_ok.
 Print Assumptions step_preserves_inv.
 Print Assumptions run_inv.
@@ -350,3 +423,5 @@ Print Assumptions C04_ptr_exception_unreachable.
 Print Assumptions C04_objects_disjoint_and_inside.
 Print Assumptions refused_unchanged.
 Print Assumptions ptr_sum_root.
+Print Assumptions ex_history.
+Print Assumptions ex_history_inv.
